@@ -186,7 +186,9 @@ def process_chunk(task):
             fails = oracle(r, ra, res.counters)
             for f in fails:
                 res.counters['oracle-fail'] += 1
-                if len(res.oracle_failures) < 50:
+                k = 'fail:' + f.split(':')[0]
+                res.counters[k] += 1
+                if res.counters[k] <= 3:        # keep a few per failure kind, so that no kind is crowded out
                     res.oracle_failures.append((r, ra, f))
         if len(res.samples) < 2 and nontriv:
             res.samples.append({'request': lines[res.n - 1], 'real': repr(ra)[:300], 'model': ml[:300]})
@@ -214,8 +216,11 @@ def run_stream(stream, chunks, projname, oraclename=None, opts=None, procs=None)
         agg.distinct |= r.distinct
         if len(agg.mismatches) < 50:
             agg.mismatches.extend(r.mismatches)
-        if len(agg.oracle_failures) < 200:
-            agg.oracle_failures.extend(r.oracle_failures)
+        for of in r.oracle_failures:
+            k = 'kept:' + of[2].split(':')[0]
+            agg.counters[k] += 1
+            if agg.counters[k] <= 5:
+                agg.oracle_failures.append(of)
         if len(agg.samples) < 4:
             agg.samples.extend(r.samples)
     return agg
